@@ -136,8 +136,8 @@ struct Driver {
 	std::vector<Inst*> insts;
 
 	void opBegin(Inst& in, int op, long a = 0, long b = 0) {
-		in.probe.draws = 0; in.probe.guardCalls = 0;
-		if (in.ctx) { in.ctx->draws = 0; in.ctx->guardCalls = 0; }
+		in.probe.draws = 0; in.probe.guardCalls = 0; in.probe.lastPendSig = -2;
+		if (in.ctx) { in.ctx->draws = 0; in.ctx->guardCalls = 0; in.ctx->lastPendSig = -2; }
 		log.tag('O'); log.i(in.idx); log.i((long)in.probe.step); log.i(op); log.i(a); log.i(b); log.nl();
 		if (!log.on) VH_LIB_ENTER(in.probe.step);
 	}
@@ -185,6 +185,7 @@ struct Driver {
 		for (int r = 0; r < VH_SHAPE.nRegions; ++r) {
 			planDump(in.m->plan((hfsm2::RegionID)r), log, r, cap, 'J');
 			planDump(static_cast<const Instance&>(*in.m).plan((hfsm2::RegionID)r), log, r, cap, 'C');
+			{ const auto constHandle = in.m->plan((hfsm2::RegionID)r); planDumpConst(constHandle, log, r, cap, 'I'); }
 		}
 	}
 #endif
@@ -298,7 +299,7 @@ int main(int argc, char** argv) {
 		else if (key == "watchdog") watchdog = v;
 		else if (key == "threads") threads = (int)v;
 		KN(pIssue); KN(pGuardCancel); KN(pGuardIssue); KN(pConsume); KN(pSucceed); KN(pFail); KN(pHeadStatus); KN(pPropagate); KN(pPlanInCb);
-		KN(kinds); KN(pNoPayload); KN(structDump); KN(logAnswers); KN(planDump); KN(maxBatch); KN(wfEvery); KN(palette); KN(zeroUtil); KN(pendq);
+		KN(kinds); KN(pNoPayload); KN(structDump); KN(logAnswers); KN(planDump); KN(maxBatch); KN(wfEvery); KN(palette); KN(zeroUtil); KN(fineUtil); KN(pendq);
 		DR(wUpdate); DR(wReact); DR(wQuery); DR(wImmediate); DR(wReset); DR(wExitEnter); DR(wSaveLoad); DR(wPlanEdit); DR(wExtStatus); DR(wRecreate); DR(wOverlong);
 		DR(replica); DR(useLogger); DR(verboseMethods); DR(fillByte); DR(addrOffset); DR(copies);
 		else { fprintf(stderr, "unknown key %s\n", key.c_str()); return 2; }
